@@ -145,6 +145,11 @@ def fp_encode (a : Nat) : List Nat := toBytes (8 * P.n) (fp_frommont P a)
 /-- `fp_decode`: `dec64le` per limb then `fp_tomont` (no range check: the value is reduced mod p) -/
 def fp_decode (bs : List Nat) : Nat := fp_tomont P (evalBytes bs % P.R)
 
+/-- `fp_decode_reduce(d, src, len)` of gfx/fp.c AS CODED: `len` is ignored ("TODO: handle lengths"); exactly `8n` bytes of
+    the buffer are read (the bytes at and beyond `len` included — an over-read when the buffer is shorter) and converted
+    with `fp_tomont`.  `bs` = the buffer contents as seen by the routine. -/
+def fp_decode_reduce (bs : List Nat) (_len : Nat) : Nat := fp_tomont P (evalBytes (bs.take (8 * P.n)) % P.R)
+
 def ops : FpOps Nat where
   zero := 0
   one := fp_set_one P
